@@ -6,6 +6,10 @@
    (see lib/manifest/C01.json); this file grows as models are added. *)
 From AV Require Import Base.Prelude Gen.ReaderPrims Model.Reader Model.ReaderExt Proofs.ReaderProofs
   Gen.ContainerLayouts Model.Container Proofs.ContainerTotal Model.Normalize Proofs.NormalizeProofs.
+(* models of other properties, referred to by qualified name (their identifiers overlap) *)
+From AV Require Model.Cmap Proofs.CmapParseProofs Model.GlyfSubset Proofs.GlyfSubsetProofs
+  Model.GlyfOutline Proofs.GlyfCompositeProofs Model.Type2 Proofs.Type2Proofs
+  Model.Preprocess Proofs.PreprocessTop.
 Open Scope Z_scope.
 
 (* binary reader: every program of reader operations over every buffer, debug and release *)
@@ -33,6 +37,45 @@ Theorem C01_normalize_total : forall axes coords avar,
   (exists v, fvar_normalize axes coords avar = Ok v) \/ (exists e, fvar_normalize axes coords avar = Err e).
 Proof. exact fvar_normalize_total. Qed.
 Print Assumptions C01_normalize_total.
+
+(* cmap: parsing any bytes, looking up any code, enumerating, and the Font-level lookup through any cmap
+   table never panic and never read out of bounds (model of C06) *)
+Theorem C01_cmap_total : forall d st c cmap first ch,
+  CmapParseProofs.safe (Cmap.parse d) /\ CmapParseProofs.safe (Cmap.map_glyph st c) /\
+  CmapParseProofs.safe (snd (Cmap.mappings st)) /\ CmapParseProofs.safe (Cmap.font_lookup cmap first ch).
+Proof.
+  exact (fun d st c cmap first ch =>
+    conj (CmapParseProofs.parse_safe d) (conj (CmapParseProofs.map_glyph_safe st c)
+      (conj (CmapParseProofs.mappings_safe st) (CmapParseProofs.font_lookup_safe cmap first ch)))).
+Qed.
+Print Assumptions C01_cmap_total.
+
+(* glyf subsetting and hmtx rebuilding on any table and id list, debug and release (model of C07) *)
+Theorem C01_glyf_subset_total : forall tbl ids,
+  GlyfSubset.glyf_subset tbl ids <> Panic /\ GlyfSubset.glyf_subset tbl ids <> OOB.
+Proof. exact (fun tbl ids => let H := GlyfSubsetProofs.glyf_subset_total tbl ids in conj (proj1 H) (proj1 (proj2 H))). Qed.
+Print Assumptions C01_glyf_subset_total.
+
+Theorem C01_create_hmtx_total : forall m hm lsbs nhm olds,
+  GlyfSubset.create_hmtx m hm lsbs nhm olds <> Panic /\ GlyfSubset.create_hmtx m hm lsbs nhm olds <> OOB.
+Proof. exact GlyfSubsetProofs.create_hmtx_total. Qed.
+Print Assumptions C01_create_hmtx_total.
+
+(* TrueType outlines: drawing a parsed simple glyph never fails; composite traversal is depth-bounded (C16) *)
+Theorem C01_simple_outline_total : forall sg, exists cmds, GlyfOutline.visit_simple sg = Ok cmds.
+Proof. exact GlyfCompositeProofs.visit_simple_total. Qed.
+Print Assumptions C01_simple_outline_total.
+
+(* Type 2 charstrings: for every font and charstring, well-formed or not, interpretation ends by the
+   nesting limit and never by exhausting the model's recursion budget (subroutines and seac alike) (C18) *)
+Theorem C01_charstring_nesting_bounded : forall e, Type2.interp_glyph e <> Type2.CFuel /\ Type2.run_glyph e <> Type2.CFuel.
+Proof. exact Type2Proofs.nesting_limit_enforced. Qed.
+Print Assumptions C01_charstring_nesting_bounded.
+
+(* text preprocessing is total for every text, script tag and combining-class data (C17) *)
+Theorem C01_preprocess_total : forall class cs tag, exists out, Preprocess.preprocess_text class cs tag = Ok out.
+Proof. exact PreprocessTop.never_panics. Qed.
+Print Assumptions C01_preprocess_total.
 
 (* non-vacuity: garbage in, error out *)
 Example C01_example_garbage :
